@@ -81,7 +81,7 @@ class Bonus(Mode):
         self.debug_log("Resetting player_score_entries that are set to reset.")
         for entry in self.bonus_entries:
             if entry['reset_player_score_entry']:
-                self.player.vars[entry['player_score_entry']] = 0
+                self.player[entry['player_score_entry']] = 0
 
     def _bonus_next_item(self):
 
@@ -118,7 +118,7 @@ class Bonus(Mode):
         self.machine.events.post(entry['event'], score=score,
                                  bonus_score=self.bonus_score, hits=hits)
         if entry['reset_player_score_entry']:
-            self.player.vars[entry['player_score_entry']] = 0
+            self.player[entry['player_score_entry']] = 0
 
         self.delay.add(name='bonus', ms=self.display_delay,
                        callback=self._bonus_next_item)
